@@ -262,6 +262,12 @@ def rotate(repo: Repo, chk: Check) -> None:
                    "the index segments partition [0, N)", f"index segments {sb} do not partition [0, N): a dimension is dropped or duplicated")
         chk.result(depends_on(pattern, "AffineTransform($_, self.pattern.b)"), "C03.rotate", f"{f.key}:offset-kept", s.where(),
                    "the constant term b is kept")
+        # the segments [1, dim) [0, 1) [dim, N) partition [0, N) only for dim >= 1: with dim = 0 the first is empty and dimension 0 is taken twice
+        if any(a == "1" or b == "dim" for a, b in sb):
+            lo = every_alt_has(s, [f"{dim_p} >= 1", f"{dim_p} > 0", f"{dim_p} > 1", f"{dim_p} >= 2", f"1 <= {dim_p}", f"0 < {dim_p}"])
+            chk.result(lo, "C03.rotate", f"{f.key}:dim-at-least-one", s.where(), "the rotated form is built only for dim >= 1",
+                       "the rotated form is built for every `dim`: rotate(0) takes dimension 0 twice (bounds (2, 3) become (2, 2, 3)) - a schedule with one more loop that "
+                       "visits every operand index twice", s.fact_texts)
 
 
 # --------------------------------------------------------------------------- tile_dim
